@@ -94,7 +94,7 @@ def rng():
 
 def abc():
     part = {"cost": 1, "prior": True, "w": "ok", "recomputed": "ok"}
-    base = {"N": 2, "maxgen": 2, "maxrank": 6, "mode": "quantile", "events": [
+    base = {"N": 2, "maxgen": 2, "maxrank": 6, "mode": "quantile", "tollist": [], "events": [
         {"ev": "Start", "tol": 5, "n": 2}, dict(part, ev="Accept", cost=3), dict(part, ev="Accept", cost=2),
         {"ev": "EndGen", "next": 3}, dict(part, ev="Accept", cost=1), dict(part, ev="Accept", cost=2),
         {"ev": "EndGen", "next": -1},
@@ -119,6 +119,10 @@ def abc():
     variants.append(("unchanged session followed by a fresh smaller run", v, True))
     v = copy.deepcopy(base); v["events"] += copy.deepcopy(again); v["events"][-1]["parts"].append(dict(part, cost=1))
     variants.append(("a particle of the earlier run still exposed after the fresh run", v, False))
+    v = copy.deepcopy(base); v["mode"] = "list"; v["tollist"] = [5, 3]
+    variants.append(("tolerance list followed entry by entry", v, True))
+    v = copy.deepcopy(base); v["mode"] = "list"; v["tollist"] = [5, 2]
+    variants.append(("second generation not under the second entry of the user's list", v, False))
     cases = []
     for label, tr, want in variants:
         res = _run("TR_Abc", "TR_Abc", tr)
